@@ -26,7 +26,7 @@ ASSUMPTIONS = [
     "finiteness is asserted for z in [1e-7, 1-1e-9] and, for massive NC kernels, below the partonic threshold z_max "
     "(beyond it the kernel is defined to vanish); explicit refusals of LeProHQ ('high virtuality limit not known') are rejections",
 ]
-BUDGET = {"quick": {"examples": 6000, "wall": 420}, "thorough": {"examples": 200000, "wall": 2400}}
+BUDGET = {"quick": {"examples": 6000, "wall": 420}, "thorough": {"examples": 800000, "wall": 2400}}
 MANDATORY = {
     t: ["nontrivial", "family:light", "family:heavy", "family:asy", "family:intrinsic", "family:splitting", "has:sing", "has:loc-only", "order:3"]
     for t in ("quick", "thorough")
